@@ -13,6 +13,8 @@ def build(asm, tier):
     asm.file('prelude/std_helpers.rs')
     asm.file('prelude/btree_entry.rs')
     asm.file('prelude/vmap_model.rs')
+    asm.extracted(al.sorted_ids_type(), 'sorted_ids.rs newtype SortedIds')
+    asm.raw(al.smap_model(), 'R28 model for BTreeMap<SortedIds, f64>')
     asm.raw(common.ZERO_TRAIT)
     t, enums = v1types.v1_module(asm.rules)
     asm.extracted(t, 'ommx.v1.rs message types')
@@ -20,6 +22,8 @@ def build(asm, tier):
     asm.file('spec/merge_spec.rs')
     asm.file('spec/kmerge_spec.rs')
     asm.file('spec/padd_spec.rs')
+    asm.file('spec/ppe_spec.rs')
+    asm.file('spec/perm_spec.rs')
     asm.raw(al.leaf_spec_text(), 'generated remainder definitions')
     asm.file('spec/lmul_spec.rs')
     asm.file('spec/fn_algebra.rs')
@@ -28,10 +32,10 @@ def build(asm, tier):
     asm.raw(al.VAR_SPEC, 'variables / parameters as operands')
     asm.raw('} // mod lib\npub mod units {\n' + common.UNITS_USES + 'broadcast use super::lib::ax_default_f64, super::lib::ax_pair_u64_cmp;\n')
     stubs, names = al.leaf_stubs()
-    asm.raw(stubs + al.MERGE_STUBS + al.PMERGE_STUBS, 'assumed callee contracts (BTreeMap-merge leaves)')
+    asm.raw(stubs + al.MERGE_STUBS + al.PMERGE_STUBS + al.PMUL_STUBS, 'assumed callee contracts (BTreeMap-merge leaves)')
     for n in names:
         asm.stubs.append(dict(unit=n, proved_in=''))
-    for u in al.zero_linear() + al.zero_quadratic_polynomial() + al.from_units() + [al.linear_add_f64(), al.linear_mul_f64(), al.quadratic_add_f64(), al.quadratic_mul_f64(), al.polynomial_mul_f64(), al.function_add(), al.function_mul(), al.linear_add_linear(), al.linear_new(), al.quadratic_add_linear(), al.quadratic_quad_iter(), al.quadratic_from_iter(), al.quadratic_add_quadratic(), al.linear_mul_linear(), al.polynomial_add_polynomial()] + al.macro_units() + al.typed_macro_units() + [io_single_term()] + al.var_units():
+    for u in al.zero_linear() + al.zero_quadratic_polynomial() + al.from_units() + [al.linear_add_f64(), al.linear_mul_f64(), al.quadratic_add_f64(), al.quadratic_mul_f64(), al.polynomial_mul_f64(), al.function_add(), al.function_mul(), al.linear_add_linear(), al.linear_new(), al.quadratic_add_linear(), al.quadratic_quad_iter(), al.quadratic_from_iter(), al.quadratic_add_quadratic(), al.linear_mul_linear(), al.polynomial_add_polynomial()] + al.sorted_ids_units() + [al.polynomial_terms(), al.polynomial_from_iter(), al.polynomial_mul_polynomial()] + al.macro_units() + al.typed_macro_units() + [io_single_term()] + al.var_units():
         asm.unit(u)
     asm.raw('} // mod units\n')
     asm.guard(common.guard_fn('c02', '', uses='use super::lib::*;'), 'vacuity: prelude')
@@ -45,8 +49,9 @@ proof fn vacuity_pre(r: v1::Function, a: v1::Function, b: v1::Function, m: Map<u
         trusted_base=common.TRUSTED_COMMON + common.T4_COLLECTIONS + [
             'T4 std contracts of the BTreeMap entry API (entry / or_default / or_insert with a prophecy-style &mut, remove) and of into_iter().map().collect() (ascending key order), helper contracts zip_zip (Iterator::zip of three slices), chain_refs, btree_into_vec2 / btreemap_collect2 (key-ordered listing of a map with pair keys), vassert_eq (assert_eq! as a precondition), axiom ax_pair_u64_cmp (lexicographic Ord of (u64,u64)) and ax_default_f64 (f64::default() == 0.0): prelude/btree_entry.rs',
             'T5 ASSUMED leaf contracts (BTreeMap entry/merge code, not verified): ' + ', '.join(names) + ' - each with an uninterpreted epsilon-drop remainder',
+            'R28: BTreeMap<Vec<u64>, f64> / BTreeMap<SortedIds, f64> replaced by the model types VMap / SMap (keys compared by content); std helpers vec_sort_unstable (sorted permutation), vec_extend_u64, vec_refs, smap_into_vec / smap_into_monomials / vmap_into_monomials (one item per entry)',
             'R25 index loop for `for term in &mut self.terms`; `.expect("Empty Function")` treated as unwrap (panic on an unset oneof: precondition of the operators)',
         ],
         assumptions=common.A1 + ['operands of Function + / * have their oneof set (the code panics otherwise: observation outside the property)'] + common.A_COO,
-        not_covered=['the BTreeMap-merge leaves other than Linear+Linear, Linear::new, Linear*Linear, Quadratic+Linear, Quadratic+Quadratic, FromIterator for Quadratic, Polynomial+Polynomial, and the term iterators (IntoIterator for &Linear/&Quadratic/&Polynomial/&Function)', 'the size of the epsilon-drop remainder'],
+        not_covered=['the BTreeMap-merge leaves other than Linear+Linear, Linear::new, Linear*Linear, Quadratic+Linear, Quadratic+Quadratic, FromIterator for Quadratic, Polynomial+Polynomial, Polynomial*Polynomial, FromIterator for Polynomial, and the term iterators of &Linear / &Quadratic / &Function (the one of &Polynomial is proved)', 'the size of the epsilon-drop remainder'],
     )
